@@ -89,7 +89,7 @@ class Path:
 
 
 class _State:
-    __slots__ = ("env", "conds", "events", "assume", "attr_store", "attr_ver", "sub_store", "sub_ver", "epoch", "fresh", "raised")
+    __slots__ = ("env", "conds", "events", "assume", "attr_store", "attr_ver", "sub_store", "sub_ver", "epoch", "fresh", "raised", "elem_ver")
 
     def __init__(self) -> None:
         self.env: Dict[str, Term] = {}
@@ -103,6 +103,7 @@ class _State:
         self.epoch = 0
         self.fresh: Set[Term] = set()  # terms known to denote objects allocated on this path
         self.raised: Optional[Tuple] = None  # set when an inlined callee raised
+        self.elem_ver: Dict[str, int] = {}  # per attribute name: element mutations of any `x.<attr>` container
 
     def clone(self) -> "_State":
         s = _State()
@@ -117,6 +118,7 @@ class _State:
         s.epoch = self.epoch
         s.fresh = set(self.fresh)
         s.raised = self.raised
+        s.elem_ver = dict(self.elem_ver)
         return s
 
 
@@ -515,6 +517,8 @@ class Evaluator:
         st.sub_store = {}
         for b in list(st.sub_ver):
             st.sub_ver[b] += 1
+        for a in {a for _, a in mods}:
+            st.elem_ver[a] = st.elem_ver.get(a, 0) + 1
         st.epoch += 1
 
     def _exec_loop(self, st: _State, node: ast.stmt) -> List[Tuple[_State, Optional[Tuple]]]:
@@ -659,28 +663,41 @@ class Evaluator:
             owner = self._target_owner(node, idx)
             cur_ver = self._ver(st, owner, idx)
             target = ("attr", base, idx)
-            self._emit(st, "store", node, target=target, value=v, aug=aug, old=old, ver=cur_ver, attr=idx, base=base, owner=owner)
+            hit = st.attr_store.get((base, idx))
+            cur = hit[0] if hit is not None else (("attr", base, idx, cur_ver) if cur_ver else ("attr", base, idx))
+            self._emit(st, "store", node, target=target, value=v, aug=aug, old=old, ver=cur_ver, attr=idx, base=base, owner=owner, cur=cur)
             self._bump(st, [(owner, idx)])
             st.attr_store[(base, idx)] = (v, owner)
             if not self._is_local_fresh(st, base):
                 st.epoch += 1
         else:
             target = ("sub", base, idx)
-            self._emit(st, "store", node, target=target, value=v, aug=aug, old=old, ver=st.sub_ver.get(base, 0), attr=None, base=base, index=idx)
-            # other known elements of the same container survive only if provably distinct
-            keep = {}
-            for (b, i), x in st.sub_store.items():
-                if b != base:
-                    keep[(b, i)] = x
-                else:
-                    d = diff_const(i, idx) if i[0] != "slice" and idx[0] != "slice" else None
-                    if d is not None and d != 0:
-                        keep[(b, i)] = x
-            st.sub_store = keep
-            st.sub_store[(base, idx)] = v
-            st.sub_ver[base] = st.sub_ver.get(base, 0) + 1
+            cur = self._read(st, base, idx, node)
+            self._emit(st, "store", node, target=target, value=v, aug=aug, old=old, ver=st.sub_ver.get(base, 0), attr=None, base=base, index=idx, cur=cur)
+            self._elem_mutated(st, base, idx)
+            st.sub_store[(strip_ver(base), idx)] = v
             if not self._is_local_fresh(st, base):
                 st.epoch += 1
+
+    def _elem_mutated(self, st: _State, base: Term, idx: Optional[Term]) -> None:
+        """Container `base` changed (element idx, or wholesale when idx is None)."""
+        sb = strip_ver(base)
+        aname = sb[2] if sb[0] == "attr" else None
+        keep = {}
+        for (b, i), x in st.sub_store.items():
+            if b == sb:
+                d = diff_const(i, idx) if idx is not None and i[0] != "slice" and idx[0] != "slice" else None
+                if d is not None and d != 0:
+                    keep[(b, i)] = x
+            elif aname is not None and b[0] == "attr" and b[2] == aname:
+                continue  # same field of a possibly aliased object
+            else:
+                keep[(b, i)] = x
+        st.sub_store = keep
+        if aname is not None:
+            st.elem_ver[aname] = st.elem_ver.get(aname, 0) + 1
+        else:
+            st.sub_ver[sb] = st.sub_ver.get(sb, 0) + 1
 
     def _delete(self, st: _State, base: Term, idx: Any, node: ast.AST) -> None:
         if isinstance(idx, str):
@@ -688,8 +705,7 @@ class Evaluator:
             self._bump(st, [(self._target_owner(node, idx), idx)])
         else:
             self._emit(st, "del", node, target=("sub", base, idx), base=base, index=idx, attr=None)
-            st.sub_store = {k: x for k, x in st.sub_store.items() if k[0] != base}
-            st.sub_ver[base] = st.sub_ver.get(base, 0) + 1
+            self._elem_mutated(st, base, None)
         if not self._is_local_fresh(st, base):
             st.epoch += 1
 
@@ -701,13 +717,14 @@ class Evaluator:
             owner = self._owner_of(node.value, idx) if isinstance(node, ast.Attribute) else "?"
             ver = self._ver(st, owner, idx)
             return ("attr", base, idx, ver) if ver else ("attr", base, idx)
-        v = st.sub_store.get((base, idx))
+        sb = strip_ver(base)
+        v = st.sub_store.get((sb, idx))
         if v is not None:
             return v
         if base[0] in ("tuple", "list") and idx[0] == "const" and isinstance(idx[1], int):
             if -len(base[1]) <= idx[1] < len(base[1]) and not any(x[0] == "star" for x in base[1]):
                 return base[1][idx[1]]
-        ver = st.sub_ver.get(base, 0)
+        ver = st.elem_ver.get(sb[2], 0) if sb[0] == "attr" else st.sub_ver.get(sb, 0)
         return ("sub", base, idx, ver) if ver else ("sub", base, idx)
 
     # ------------------------------------------------------------------ expressions
@@ -1090,9 +1107,8 @@ class Evaluator:
             self._bump(st, mods)
             names = {a for _, a in mods}
             st.sub_store = {k: v for k, v in st.sub_store.items() if not (k[0][0] == "attr" and k[0][2] in names)}
-            for b in list(st.sub_ver):
-                if b[0] == "attr" and b[2] in names:
-                    st.sub_ver[b] += 1
+            for a in names:
+                st.elem_ver[a] = st.elem_ver.get(a, 0) + 1
             st.epoch += 1
         elif not pure and not noise:
             mut_base: Optional[Term] = None
@@ -1102,8 +1118,7 @@ class Evaluator:
                 mut_base = args[0]
             if mut_base is not None:
                 ev.data["mutates"] = mut_base
-                st.sub_store = {k: v for k, v in st.sub_store.items() if k[0] != mut_base}
-                st.sub_ver[mut_base] = st.sub_ver.get(mut_base, 0) + 1
+                self._elem_mutated(st, mut_base, None)
                 if not self._is_local_fresh(st, mut_base):
                     st.epoch += 1
             elif site.how in ("unknown", "byname") or (site.targets and self._uses_prng(site)):
